@@ -183,6 +183,16 @@ CHECKS = {
         design_ref="6.4",
         note=LEVEL_NOTE_COMMON + " That NN-descent restarted from the invalidated graph again satisfies C01 is covered by C01's kernel theorems and validated here per history, not re-proved for the update path; sparse update is unsupported by the library.",
     ),
+    "C06": dict(
+        technique="Coq proof over a model of __getstate__/__setstate__ and of the metric re-binding (load(save(s)) equals the prepared original on every field a query reads; save idempotent; loaded copies consistent) + correspondence of the binding with the implementation for every metric name + differential round trips (pickle protocols, joblib, fresh interpreter) comparing query answers array-for-array",
+        text=("Theorems C06_roundtrip, C06_save_idempotent, C06_loaded_is_consistent, C06_rebinding_agrees, refutation of the pinned dense "
+              "re-binding for CSR indexes (coq/props/C06.v). Every run: the function object bound by _set_distance_func / "
+              "_set_sparse_distance_func is compared with the extracted model for all 52 metric names x dense/CSR; indexes (dense, CSR, "
+              "bit-packed; metrics with arguments and with surrogates; compressed or not) are saved at different points of their life and "
+              "the answers of original-before, original-after, copy, copy-of-copy, second save and a fresh-interpreter load are compared."),
+        design_ref="6.6",
+        note=LEVEL_NOTE_COMMON + " Byte-level fidelity of pickle/joblib/numpy/numba serialisation is runtime behaviour: exercised (in-process and cross-process), not proved.",
+    ),
 }
 
 REASON_PENDING = "check not built yet in this round (design in DESIGN.md section 6; no claim is made until the check exists)"
